@@ -702,8 +702,12 @@ func vC19StartUpstreams(n int) (*vC19Upstreams, error) {
 		}
 		var wg sync.WaitGroup
 		wg.Add(2)
-		us := &dns.Server{PacketConn: pc, Handler: u.handler(port, false), NotifyStartedFunc: wg.Done}
-		ts := &dns.Server{Listener: ln, Handler: u.handler(port, true), NotifyStartedFunc: wg.Done}
+		// the observer takes every query: miekg's default MsgAcceptFunc answers FORMERR to ARCOUNT > 2 before
+		// the handler sees the packet (a query whose additional section keeps its non-OPT records around the
+		// one OPT would have left the process unrecorded)
+		acceptAll := func(dns.Header) dns.MsgAcceptAction { return dns.MsgAccept }
+		us := &dns.Server{PacketConn: pc, Handler: u.handler(port, false), NotifyStartedFunc: wg.Done, MsgAcceptFunc: acceptAll}
+		ts := &dns.Server{Listener: ln, Handler: u.handler(port, true), NotifyStartedFunc: wg.Done, MsgAcceptFunc: acceptAll}
 		go us.ActivateAndServe()
 		go ts.ActivateAndServe()
 		wg.Wait()
